@@ -57,6 +57,11 @@ def tasks(tier, seed):
     fam4, _ = F.family(4, tier, seed)
     for K in F.sample([x for x in fam4 if 1 <= len(x) <= 7], 16 if tier == "thorough" else 6, seed, "c11s4"):
         add("search", 4, K, 3 if tier == "thorough" else 2, rnd.choice([2, 3, 4, 5, 7]), "exploitability", 1)
+    if tier == "thorough":
+        for S in F.extras(4):
+            add("search", 4, [S], 3, rnd.choice([2, 3, 5, 7, 16]), rnd.choice(["exploitability", "l1_norm", "linf_norm"]), rnd.choice([1, 2]))
+        for K in F.sample([x for x in fam4 if len(x) == 6], 12, seed, "c11s4b"):
+            add("search", 4, K, 4, rnd.choice([3, 5, 6]), "l2_norm", 2, rnd.choice(["superadditive", "superadditive_cached"]))
     for gap in GAPS:
         add("meta", 3, [], 0, 1, gap)
     add("meta", 4, [], 0, 1, "exploitability", sub=16 if tier == "quick" else 128)
